@@ -581,6 +581,10 @@ been initialized
                         render_data, real_render_args, output
                     )
                     raise
+        except KeyboardInterrupt:
+            # Animations end silently, even if interrupted before the first frame
+            if not animation:
+                raise
         finally:
             try:
                 output.write("\n")
